@@ -557,6 +557,9 @@ func c14PeerRewrite(c *Ctx, fn *ssa.Function, g *ssa.Go, arg ssa.Value, peer *ss
 		r.Violation("C14-K5", key("rewritten peer type"), c.P.ipos(alloc), "rewritten peer is not a net.UDPAddr")
 		return
 	}
+	// fresh per datagram: the address object is allocated inside the serve loop (one allocated before the loop is shared
+	// by every handler still running: a later datagram's port overwrites the peer an earlier handler is replying to)
+	r.Check(sameCycle(alloc.Block(), g.Block()), "C14-K5", key("rewritten peer is allocated per datagram"), c.P.ipos(alloc), "allocation on the loop's cycle", "the rewritten peer address is allocated outside the serve loop and shared between datagrams: handlers of different senders see each other's port")
 	// stores into the fresh UDPAddr
 	gotIP, gotPort := "", ""
 	for _, ref := range *alloc.Referrers() {
